@@ -20,7 +20,7 @@ ASSUMPTIONS = ["LSP clients apply a TextEdit with UTF-16 columns; the harness do
 VSETS = [["1.0.0", "1.0.5", "1.2.0", "2.0.0", "2.1.0-beta.1"], ["1.0.0"], ["0.9.0", "1.0.0-rc.1"], ["1.0.5", "1.0.5+b", "1.10.0", "1.9.0"],
          ["v1.0.0", "v1.0.5", "v2", "v2.1.1"], ["junk", "1.0.6", ""], [], ["3.0.0", "1.0.1"]]
 CURS = ["1.0.0", "^1.0.0", "~1.0.0", ">=1.0.0", "<=1.0.0", ">1.0.0", "<2.0.0", "=1.0.0", "v1.0.0", "1.0", "^1", "1.x", "*", "latest",
-        ">=1.0.0 <2.0.0", "1.0.0 || 2.0.0", "^1.0.0-rc.1", "2.1.0", "^0.9.0", "é1.0.0", "1.0.5"]
+        ">=1.0.0 <2.0.0", "1.0.0 || 2.0.0", "^1.0.0-rc.1", "2.1.0", "^0.9.0", "é1.0.0", "1.0.5", "==1.0.0", "~=1.0.0", "===1.0.0", "!=1.0.0", "~=1.0"]
 
 
 def pk(name, version, line, col, start=None, hash_=None, extra=None):
@@ -118,6 +118,17 @@ def streams(ctx):
         # pnpm
         deps = [(None, "react", specs[0], ("react", specs[0], None)), ("legacy", "@types/node", specs[1], ("@types/node", specs[1], None))]
         t, d = render.pnpm_workspace(deps, L); add_doc("pnpm", t, d, vs, ("pnpm", tuple(specs[:2])))
+    # every operator a single-version spec can carry, in each format that has it, on a document of its own (deterministic)
+    L1 = render.lay(rng, nonascii=False, crlf=False, quote='"', compact=False, blank=False, comment=False)
+    for op in ["", "^", "~", ">=", "<=", ">", "<", "=", "v", "=v"]:
+        t, d = render.package_json([("dependencies", "lodash", op + "1.0.0", ("lodash", op + "1.0.0", None))], L1)
+        add_doc("npm", t, d, VSETS[0], ("npm-op", op))
+    for op in ["", "^", "~", ">=", "<=", ">", "<", "="]:
+        t, d = render.cargo_toml([("dependencies", "serde", "simple", op + "1.0.0", ("serde", op + "1.0.0", None))], L1)
+        add_doc("crates", t, d, VSETS[0], ("crates-op", op))
+    for op in ["==", "~=", ">=", "<=", ">", "<", "==="]:
+        t, d = render.pyproject([("project", "requests" + op + "1.0.0", ("requests", op + "1.0.0", None))], L1)
+        add_doc("pypi", t, [("requests", op + "1.0.0", None)], ["1.0.0", "1.0.5", "1.2.0", "2.0.0"], ("pypi-op", op))      # (PEP 440 spells prereleases differently)
     # the witnesses of F-C07-1 (repaired): the reported token is not the version text (JSR imports, npm aliases, quoted uses)
     L0 = render.lay(rng, nonascii=False, crlf=False, quote='"', compact=False, blank=False, comment=False)
     t, d = render.deno_json([("@std/path", "jsr:@std/path@^1.0.0", ("@std/path", "^1.0.0", None))], L0)
@@ -171,7 +182,7 @@ def streams(ctx):
                                     f"applying 'Bump … {newtext}' to spec {cur!r} does not yield the same manifest with only that spec changed: re-parsed {show(got)} expected {show(exp)}"))})
                     continue
                 pre = prefix_of(cur)
-                t = newtext[len(pre):] if newtext.startswith(pre) else newtext
+                t = strip_pre(pre, cur, newtext) if newtext.startswith(pre) else newtext
                 if not newtext.startswith(pre):
                     der.append({"req": vlib.line("bump.ok", label, cur, t), "index": i, "history": [c["req"]],
                                 "check": (lambda out, cur=cur, newtext=newtext: ("violation", f"range operator of {cur!r} not preserved in {newtext!r}"))})
@@ -185,7 +196,7 @@ def streams(ctx):
             targets = []
             for a in acts:
                 nt_ = vlib.unhx(a.split("=>")[0].strip().split("|")[5])
-                targets.append(nt_[len(pre0):] if nt_.startswith(pre0) else nt_)
+                targets.append(strip_pre(pre0, cur, nt_) if nt_.startswith(pre0) else nt_)
             for label in ("patch", "minor", "major"):
                 der.append({"req": vlib.line("bump.covered", label, cur, str(len(targets)), *targets, *c["vs"]), "index": i, "history": [c["req"]],
                             "check": (lambda out, label=label, targets=tuple(targets), cur=cur, kc0=kc0: None if out == "T" else (("known", kc0) if kc0 else ("violation",
@@ -278,10 +289,18 @@ def streams(ctx):
 
 
 def prefix_of(v):
-    for p in (">=", "<=", ">", "<", "=", "^", "~", "v"):
-        if v.startswith(p):
-            return p
-    return ""
+    """the range operator of a single-version spec, read off the spec itself (NOT from the code's table): the leading run of
+    operator characters, then an optional v"""
+    import re
+    return re.match(r"[\^~<>=!]*", v).group(0)
+
+
+def strip_pre(pre, cur, newtext):
+    """the target an action advertises, without the operator; a cosmetic `v` that spec and edit share is not part of it"""
+    t = newtext[len(pre):]
+    if cur[len(pre):].startswith("v") and t.startswith("v"):
+        t = t[1:]
+    return t
 
 
 def show(x):
